@@ -193,6 +193,39 @@ EomSquareOK(c, op) ==
     /\ \/ (w[4] = blk.amp /\ w[6] = blk.don /\ (~op.dd \/ blk.amp = 0))
        \/ (w[4] = 0 /\ w[6] = blk.doff /\ op.dd)
 
+(* C15: phase-drift correction.  While a channel idles in EOM mode the detuning *)
+(* is doff, so the qubit frame drifts by -doff * dt with respect to the pulses;  *)
+(* a corrected operation shifts the reference (and the pulse's phase) by the     *)
+(* drift of the idle intervals it closes.  Drift of an interval of dt ns at      *)
+(* off-detuning doff (1e-6 rad/us), in 1e-6 rad: -doff * dt / 1000.              *)
+DriftOf(doff, dt) == ((-doff) \div 1000) * dt + (((-doff) % 1000) * dt) \div 1000
+
+(* start of the current idle interval of channel c (in EOM mode): the end of the *)
+(* last real pulse, or the start of the current block if that is later           *)
+IdleOrigin(c) ==
+  LET lp == LastPulseIdx(c, TRUE) IN
+  Max2(LastOf(c.eb).ti, IF lp = 0 THEN 0 ELSE c.sl[lp].tf)
+
+(* the reference shift a drift-corrected EOM operation must apply to its targets *)
+ExpectedDriftShift(pre, post, c, i) ==
+  LET cp == pre.ch[i]
+      cq == post.ch[i]
+      buf == LastOf(cq.sl)
+  IN
+  CASE c.op = "eom_add" ->
+         -DriftOf(LastOf(cp.eb).doff, LastOf(cq.sl).ti - IdleOrigin(cp))
+    [] c.op = "eom_off" ->
+         -DriftOf(LastOf(cp.eb).doff, LastOf(cq.eb).tf - IdleOrigin(cp))
+    [] c.op = "eom_on" ->
+         \* the buffer idles at the new off-detuning from the end (with fall time) of what
+         \* was there before
+         -DriftOf(LastOf(cq.eb).doff, ChanDur(cq) - DeclDurFall(cp))
+    [] c.op = "eom_mod" ->
+         \* old off-detuning up to the moment of the modification (the channel's end), the
+         \* new one during the buffer that follows
+         -(DriftOf(LastOf(cp.eb).doff, ChanDur(cp) - IdleOrigin(cp))
+           + DriftOf(LastOf(cq.eb).doff, ChanDur(cq) - ChanDur(cp)))
+
 -----------------------------------------------------------------------------
 Viol(pre, c, r, h) ==
   LET post == r.st
@@ -313,5 +346,15 @@ Viol(pre, c, r, h) ==
   \* ---- C15 -------------------------------------------------------------
   \cup (IF \E x \in NewSlots(pre, post) : ~EomSquareOK(post.ch[x[1]], post.ch[x[1]].sl[x[2]])
         THEN {"C15.EomSquare"} ELSE {})
+  \cup (IF cpd /\ ok /\ i # 0 /\ c.op \in {"eom_add", "eom_off", "eom_on", "eom_mod"}
+           /\ LET e == ExpectedDriftShift(pre, post, c, i)
+                  tgs == IF c.op = "eom_add" THEN lastTg ELSE LastOf(post.ch[i].sl).tg
+                  extra == IF c.op = "eom_add" THEN PMod(c.pps) ELSE 0
+              IN \/ \E q \in 1..NQ(pre) :
+                      ~PhEq(RefLast(post, bi, q),
+                            PMod(RefLast(pre, bi, q) + (IF HasBit(tgs, q) THEN e + extra ELSE 0)))
+                 \/ (c.op = "eom_add"
+                     /\ ~(\E x \in RefPhases(pre, bi, lastTg) : PhEq(new.ph, PMod(PMod(c.ph) + x + e))))
+        THEN {"C15.DriftCorrection"} ELSE {})
 
 =============================================================================
